@@ -113,3 +113,10 @@ const (
 	maximumTTL = 12 * time.Hour
 	defaultCap = 1024 * 256
 )
+
+// MaxLease is the longest a delegation is held, however long a TTL its parent
+// put on the referral. Set and SetUntil clamp to it on storage; a caller that
+// hands the same deadline to anything else (the answer cache, a descendant
+// delegation) has to clamp it too, or what was learned through the delegation
+// outlives the delegation.
+const MaxLease = maximumTTL
